@@ -207,4 +207,18 @@ PROPS = {
         "trusted_base": ["the eliminant of x+y, x*y, x^n is computed by the model as a Sylvester determinant (C04 reference); that it vanishes at the exact value is the classical resultant property, not formalised"],
         "assumptions": ["operands with deg f + deg g <= 7 (larger eliminants are skipped and counted)"],
     },
+    "C08": {
+        "level": "proof",
+        "lean_targets": ["LP.Props.C08"],
+        "harnesses": [{"name": "h_value", "quick": 400, "thorough": 8000}],
+        "select": lambda t: t[1] == "val",
+        "nontrivial": lambda t, r: True,
+        "rule": "pools of values per case: rational numbers in every representation that can hold them (integer, dyadic, rational, "
+                "algebraic point / linear polynomial), irrational algebraic numbers, rational roots hidden in reducible quadratics, "
+                "+-infinity; cmp over all representation pairs, cmp_rational, sgn, add/sub/mul/div/neg/inv/pow incl. the defined infinite "
+                "cases, floor/ceiling/is_integer, is_rational + get_rational/num/den, get_value_between with all strictness patterns, "
+                "hash_approx of pairs biased to equal numbers in different representations. Every line is non-trivial.",
+        "trusted_base": ["as C07: the eliminant property of the Sylvester determinant is classical, not formalised"],
+        "assumptions": ["operands with deg f + deg g <= 7; undefined infinite combinations (inf-inf, 0*inf, inf/inf, x^0) are not generated"],
+    },
 }
